@@ -133,6 +133,23 @@ def start(name):
         c.set_outputs(['g3', 'g0'])
         c.make_block('K', ['g0', 'g2'], ['g2'])
         return c
+    if name == 'S9':  # fan-out two below the outputs, a constant that carries operands
+        c.add_inputs(['x0', 'x1'])
+        c.emplace_gate('g0', G.AND, ('x0', 'x1'))
+        c.emplace_gate('g1', G.NOT, ('g0',))
+        c.emplace_gate('g2', G.OR, ('g0', 'x1'))
+        c.emplace_gate('g3', G.XOR, ('g1', 'g2'))
+        c.emplace_gate('g4', G.ALWAYS_FALSE, ('g1', 'x0'))
+        c.emplace_gate('g5', G.GEQ, ('g4', 'g2'))
+        c.set_outputs(['g3', 'g0', 'g5'])
+        return c
+    if name == 'S8':  # no inputs at all: everything hangs off constants
+        c.emplace_gate('k0', G.ALWAYS_TRUE, ())
+        c.emplace_gate('p', G.NOT, ('k0',))
+        c.emplace_gate('q', G.AND, ('p', 'k0'))
+        c.emplace_gate('r', G.XOR, ('q', 'p'))
+        c.set_outputs(['r', 'q'])
+        return c
     if name == 'S7':  # repeated operands in wide and asymmetric gates
         c.add_inputs(['x0', 'x1'])
         c.emplace_gate('g0', G.AND, ('x0', 'x1', 'x0'))
@@ -144,7 +161,7 @@ def start(name):
     raise KeyError(name)
 
 
-START_NAMES = ('S0', 'S1', 'S2', 'S3', 'S4', 'S5')
+START_NAMES = ('S0', 'S1', 'S2', 'S3', 'S4', 'S5', 'S8')
 
 
 # -- operations ---------------------------------------------------------------------
@@ -171,14 +188,11 @@ def apply_op(c, op):
         c.rename_gate(op[1], op[2])
     elif k == 'mark_as_output':
         c.mark_as_output(op[1])
-    elif k == 'set_outputs':
-        c.set_outputs(list(op[1]))
-    elif k == 'set_inputs':
-        c.set_inputs(list(op[1]))
-    elif k == 'order_inputs':
-        c.order_inputs(list(op[1]))
-    elif k == 'order_outputs':
-        c.order_outputs(list(op[1]))
+    elif k in ('set_outputs', 'set_inputs', 'order_inputs', 'order_outputs'):
+        # the list stays the caller's: it is emptied right after the call, which must not reach the circuit
+        arg = list(op[1])
+        getattr(c, k)(arg)
+        arg.clear()
     elif k == 'set_inputs_live':  # the caller hands the circuit's own (live) list back
         c.set_inputs(c.inputs)
     elif k == 'set_outputs_live':
@@ -190,9 +204,15 @@ def apply_op(c, op):
     elif k == 'replace_inputs_live':
         c.replace_inputs(c.inputs, [])
     elif k == 'replace_inputs':
-        c.replace_inputs(list(op[1]), list(op[2]))
+        a1, a2 = list(op[1]), list(op[2])
+        c.replace_inputs(a1, a2)
+        a1.clear()
+        a2.clear()
     elif k == 'connect_circuit':
-        c.connect_circuit(_oth(op[1]), list(op[2]), list(op[3]), right_connect=op[4], name=op[5], add_prefix=op[6])
+        a1, a2 = list(op[2]), list(op[3])
+        c.connect_circuit(_oth(op[1]), a1, a2, right_connect=op[4], name=op[5], add_prefix=op[6])
+        a1.clear()
+        a2.clear()
     elif k == 'connect_left':
         c.connect_left(_oth(op[1]), list(op[2]), name=op[3], add_prefix=op[4])
     elif k == 'connect_right':
@@ -206,7 +226,12 @@ def apply_op(c, op):
     elif k == 'add_circuit':
         c.add_circuit(_oth(op[1]), name=op[2], add_prefix=op[3])
     elif k == 'make_block':
-        c.make_block(op[1], list(op[2]), list(op[3]), None if op[4] is None else list(op[4]))
+        a1, a2, a3 = list(op[2]), list(op[3]), None if op[4] is None else list(op[4])
+        c.make_block(op[1], a1, a2, a3)
+        a1.clear()
+        a2.clear()
+        if a3 is not None:
+            a3.clear()
     elif k == 'make_block_from_slice':
         c.make_block_from_slice(op[1], list(op[2]), list(op[3]))
     elif k == 'delete_block':
@@ -253,6 +278,8 @@ def warm_up(c):
     """Query the circuit before it is mutated, so that anything the library might remember between calls
     (orders, tables) exists and would have to be invalidated by the mutation."""
     try:
+        if refmodel.abstract(c).topo() is None:
+            return  # a cyclic circuit (only a broken library produces one): its evaluation would not terminate
         c.evaluate_full_circuit({i: False for i in c.inputs})
         list(c.top_sort(inverse=True))
         list(c.top_sort())
@@ -365,6 +392,13 @@ def menu(c, level='full'):
             m.append(['replace_subcircuit', sub3, [[i, i] for i in I2], [[g, g], [u, u]]])
         sub2 = {'inputs': ['R_' + i for i in I], 'outputs': ['R_' + g], 'gates': [['R_' + i, 'INPUT', []] for i in I] + [['R_' + g, t, ['R_' + o for o in ops_]]], 'blocks': {}}
         m.append(['replace_subcircuit', sub2, [[i, 'R_' + i] for i in I], [[g, 'R_' + g]]])
+        # a replacement that would close a loop: the new g reads one of its own users (must be refused)
+        for u in list(dict.fromkeys(c.get_gate_users(g)))[:2]:
+            if u == g or u in I:
+                continue
+            I3 = I + [u]
+            sub4 = {'inputs': I3, 'outputs': [g], 'gates': [[i, 'INPUT', []] for i in I3] + [['zz_m', t, ops_], [g, 'XOR', ['zz_m', u, u]]], 'blocks': {}}
+            m.append(['replace_subcircuit', sub4, [[i, i] for i in I3], [[g, g]]])
     # composition
     if level != 'nocomp':
         m += composition_menu(c, level)
@@ -453,6 +487,10 @@ def explore(start_name, prefix, depth, acc, monitor, level='full', menu_fn=None,
                 acc.outcome('state', hash(key))
                 acc.traces += 1
                 monitor(c2, start_name, h2, acc)
-                if len(h2) < depth:
+                try:
+                    cyclic = refmodel.abstract(c2).topo() is None
+                except Exception:  # noqa: BLE001
+                    cyclic = True
+                if len(h2) < depth and not cyclic:  # ill-formed states are reported by the monitor, not expanded
                     nxt.append(h2)
         frontier = nxt
